@@ -103,3 +103,9 @@ META["C09"] = dict(
     text=("Generated base scenes rendered under pairs of equivalent presentations (alpha-less format, alpha 255, 565, solid, 1x1 "
           "repeating; opaque masks; repeating opaque destinations) and compared bit for bit, under three implementation chains."),
     note="Trusted: the equivalence rules listed in the assumptions. Found and fixed: S19.")
+META["C13"] = dict(
+    technique="property-based testing (rapidcheck): generated gradients vs. long-double geometric reference with interval tolerance; safety part under ASan with a hang watchdog",
+    design_ref="§4 C13",
+    text=("Generated stop lists/geometries/repeats/transforms; every pixel compared with the range of a long-double reference over "
+          "the admissible parameter interval; degenerate and hostile inputs run under ASan with a watchdog."),
+    note="Trusted: the reference in props/gradients.cpp; tolerance rules listed in the assumptions.")
